@@ -130,7 +130,8 @@ def generate(r, tier, index):
                            'err': r.choice(['EACCES', 'EISDIR', 'EIO_read', 'undecodable', 'ENAMETOOLONG', 'EINVAL', 'EMFILE'])})
         elif c == 2:
             faults.append({'kind': 'failed_then_continue', 'plan': r.randrange(len(plans)),
-                           'err': r.choice(['EIO_read', 'undecodable', 'EACCES', 'EISDIR', 'ENOENT'])})
+                           'err': r.choice(['EIO_read', 'undecodable', 'EACCES', 'EISDIR', 'ENOENT', 'parse_file', 'parse_text_fn', 'parse_stream_fn',
+                                            'parse_second_doc'])})
         elif c == 3:
             faults.append({'kind': 'replaced', 'plan': r.randrange(len(plans)), 'nth': r.randrange(0, 6)})
         else:
@@ -601,8 +602,21 @@ def execute(sc):
                 bad = '/w/conf/failing_first.yaml'
                 files = dict(mat['files'])
                 pre = [{'path': bad, 'raw_yaml': False}]
+                base_pre = []
                 fsf = []
-                if f['err'] != 'ENOENT':
+                malformed = '{zz: [1, 2\n'
+                if f['err'] == 'parse_file':
+                    files[bad] = malformed                      # the named source is rejected by the parser: no stage is added
+                elif f['err'] == 'parse_text_fn':
+                    pre = [{'text': malformed, 'filename': bad}]
+                elif f['err'] == 'parse_stream_fn':
+                    pre = [{'stream': malformed, 'filename': bad}]
+                elif f['err'] == 'parse_second_doc':
+                    # first document accepted (a stage is added), second rejected; a fresh builder gets the first document alone
+                    files[bad] = '{from_failing_source: 1}\n---\n' + malformed
+                    files['/w/conf/failing_first_good_part.yaml'] = '{from_failing_source: 1}\n'
+                    base_pre = [{'path': '/w/conf/failing_first_good_part.yaml', 'raw_yaml': False}]
+                elif f['err'] != 'ENOENT':
                     files[bad] = '{from_failing_source: 1}\n'
                     fsf = [{'path': bad, 'occ': 0, 'kind': f['err']}]
                 # decoys next to the failing file: a leaked "current file" would make cwd-resolved includes read them
@@ -614,7 +628,7 @@ def execute(sc):
                 files['/w/conf/after_failure_inc.yaml'] = '{after_failure: WRONG COPY}\n'
                 mat2['calls'] = [{'text': '!include after_failure_inc.yaml\n', 'filename': None}] + list(mat['calls'])
                 obs = _run(mat2, fs_faults=fsf, pre_calls=pre)
-                base = _run(mat2)
+                base = _run(mat2, pre_calls=base_pre)
                 st['runs'] += 2
                 for k, n in obs['fired'].items():
                     count(st['faults'], k, n)
@@ -622,7 +636,7 @@ def execute(sc):
                 res['keys'].append(core.digest([sc['docs'], plan, f]))
                 if obs['pre'] and obs['pre'][0] == 'ok':
                     continue
-                if obs.get('pre_stages'):
+                if obs.get('pre_stages') and f['err'] != 'parse_second_doc':
                     continue   # the failing source added stages before failing: nothing to compare
                 count(st['outcomes'], 'after_failed_source:' + obs['status'])
                 if obs['status'] != base['status'] or (obs['status'] == 'ok' and obs['cfg'] != base['cfg']):
